@@ -248,9 +248,10 @@ def g_std(files):
                         and not (k > a and toks[k - 1].kind == 'punct' and toks[k - 1].text == '::' and k - 2 >= a and toks[k - 2].kind == 'ident'):
                     key = (f.rel, fn)
                     sites.append({'file': f.rel, 'fn': fn, 'line': t.line})
-                    ok = key in G_STD_ALLOW
-                    if ok and f.rel.startswith('common/'):
-                        ok = in_not_error_in_core_branch(f, k)
+                    # allowed: (1) anywhere, inside the verified cfg structure that is only emitted with the std feature on;
+                    # (2) templates of the *string* generator (string newtypes are outside the no_std claim). The table above
+                    # records the sites confirmed by reading; a site that moves but keeps (1) or (2) stays allowed.
+                    ok = in_not_error_in_core_branch(f, k) or f.rel.startswith('string/')
                     if not ok:
                         viol.append({'file': f.rel, 'fn': fn, 'line': t.line,
                                      'what': f'`std::` path emitted by the template in {f.rel}::{fn}'})
